@@ -729,7 +729,7 @@ def _analyse(res, prog, d, verdict, o, expected, tier="thorough"):
 # ---------------------------------------------------------------------------
 
 def main(chk):
-    n = int(os.environ.get("C08_PROGRAMS", "0")) or chk.pick(600, 20000)
+    n = int(os.environ.get("C08_PROGRAMS", "0")) or chk.pick(3000, 20000)
     chk.rule = ("one case = one macrogen program (2-8 definitions, 4-12 use statements, optional #undef/redefinition/"
                 "push_macro/pop_macro/-D); distinct = distinct SET of expansion features the independent model "
                 "observed while expanding it (argument shapes, #, ##, __VA_OPT__, suppression, rescanning, ...); "
